@@ -105,6 +105,9 @@ type Net struct {
 	Filter func(src, dst string, data []byte) Verdict
 	// OnAgentSend observes every datagram the agent transmits (before faults).
 	OnAgentSend func(src, dst string, data []byte)
+	// OnConnClose observes the close of a connected UDP socket of the agent (the
+	// simulator may aim an arrival at the instants right after it).
+	OnConnClose func(local, remote string)
 
 	Stats     map[string]int
 	ephemeral int
@@ -167,6 +170,10 @@ func (n *Net) route(src, dst string, data []byte, f *NetFaults, dir string) {
 		s.After(lat()+50*time.Microsecond, func() { n.arrive(src, dst, cp) })
 	}
 }
+
+// Arrive delivers a datagram now (no latency, no faults): for arrivals the
+// simulator aims at an instant.
+func (n *Net) Arrive(src, dst string, data []byte) { n.arrive(src, dst, data) }
 
 // arrive performs kernel demultiplexing at arrival time.
 func (n *Net) arrive(src, dst string, data []byte) {
@@ -464,6 +471,9 @@ func sockClose(sk *sock) error {
 		}
 		sk.closed = true
 		W.Sim.Logf("net close sock=%d", sk.id)
+		if sk.kind == skConn && W.Net.OnConnClose != nil {
+			W.Net.OnConnClose(sk.local, sk.remote)
+		}
 	})
 	return mkErr(code, "close")
 }
